@@ -304,6 +304,10 @@ def coq_check(c, obs):
         if op == 'getslice':
             if r[0] == 'ok': terms.append(f"rbits_eqb (arr_getslice {wcur} {D} {cslice(*st['k'])}) (Ok {cbits(r[1][0][2])})")
             elif r[1] == 'ValueError': terms.append(f"rbits_eqb (arr_getslice {wcur} {D} {cslice(*st['k'])}) (Err ValueError)")
+        elif op == 'pop':
+            # the data after pop, and (on success) nothing else to compare at bit level: the returned item is checked by the oracle
+            if r[0] == 'ok': terms.append(f"res_eqb bits_eqb (do xd <- arr_pop {wcur} {D} {cz(st['i'])}; Ok (snd xd)) (Ok {cbits(after[2])})")
+            elif r[1] == 'IndexError': terms.append(f"res_eqb bits_eqb (do xd <- arr_pop {wcur} {D} {cz(st['i'])}; Ok (snd xd)) (Err IndexError)")
         elif op == 'delitem': terms.append(f"rbits_eqb (arr_delitem {wcur} {D} {cz(st['i'])}) {cres(res, cbits)}")
         elif op == 'setitem' and r[0] == 'ok':
             k = st['i'] + n if st['i'] < 0 else st['i']
